@@ -97,11 +97,12 @@ def _explore(case, max_steps=400, orders_per_sigma=6, seed=0, check_intermediate
                     return 'selected-option-not-wired', 'choice %d option %d' % (c, o)
             return None
         if g.final and g.feasible:
-            if tuple(nodes) not in adm_insts:
-                return 'feasible-final-instance-not-admissible', 'nodes %s path %s' % (nodes, sigma_path)
             for a, c in case.get('incompat', []):
                 if a in nodes and c in nodes:
-                    return 'feasible-instance-contains-incompatible-pair', '%d,%d' % (a, c)
+                    return 'feasible-instance-contains-incompatible-pair', '%d,%d nodes %s path %s' % (a, c, nodes, sigma_path)
+        if g.final and g.feasible:
+            if tuple(nodes) not in adm_insts:
+                return 'feasible-final-instance-not-admissible', 'nodes %s path %s' % (nodes, sigma_path)
         return None
 
     # ---- (1) follow every admissible assignment in several orders
